@@ -111,7 +111,7 @@ def run(args):
             ctx, _ = run_property(p, REPO, "quick", {rel: new})
             v = [o for o in ctx.obs if o.verdict == "VIOLATION" and o.key(p) not in known]
             if v:
-                out[p] = "VIOLATION " + "; ".join(f"{o.rule} {o.function} [{o.instance[:60]}]" for o in v[:3])
+                out[p] = "VIOLATION " + "; ".join(f"{o.rule} {o.function} [{o.instance[:60]}]" for o in v[:40])
         except AnalysisError as e:
             out[p] = "EXIT2 " + str(e)[:160]
         except Exception as e:
